@@ -232,7 +232,7 @@ RAWD = "(old(self._default) if is_alt(old(self._rawdefaults), 'none') else old(s
 contract('info.BaseKeyInfo.prepare_raw_defaults',
          requires=[Clause("self.name == '+'", label='wildcard-only')],
          modifies=['self._rawdefaults', 'self._default'],
-         ensures=[Clause('self._rawdefaults == %s' % RAWD, carries='C11',
+         ensures=[Clause('self._rawdefaults == %s' % RAWD, carries='C02,C11',
                          label='defaults-AS-WRITTEN-kept-once-never-replaced-by-normalised-ones'),
                   Clause("is_alt(self._default, 'kmap') and alt(self._default, 'kmap') == {}", carries='C11',
                          label='normalised-defaults-start-empty')])
@@ -247,7 +247,7 @@ contract('info.KeyInfo.computedefault', params={'keytype': 'Fun[kt]'},
          inline_calls=['info.ValueInfo.convert'],
          ensures=[Clause('self._rawdefaults == %s' % RAWD, carries='C11', label='defaults-as-written-kept'),
                   Clause("%s[0] == 0 and is_alt(self._default, 'kmap') and alt(self._default, 'kmap') == %s[1]" % (RN, RN),
-                         carries='C10,C11', label='defaults-re-normalised-under-the-given-key-type')],
+                         carries='C02,C10,C11', label='defaults-re-normalised-under-the-given-key-type')],
          raises=[Raise('ZConfig.SchemaError', when='%s[0] == 1' % RN, carries='C10,C11',
                        label='default-keys-collide-after-normalisation'),
                  Raise('ZConfig.DataConversionError', when='%s[0] == 2' % RN, carries='C10',
@@ -281,7 +281,7 @@ contract('info.MultiKeyInfo.computedefault', params={'keytype': 'Fun[kt]'},
          inline_calls=['info.ValueInfo.convert'],
          ensures=[Clause('self._rawdefaults == %s' % RAWD, carries='C11', label='defaults-as-written-kept'),
                   Clause("%s[0] == 0 and is_alt(self._default, 'kmap') and alt(self._default, 'kmap') == %s[1]" % (RNM, RNM),
-                         carries='C10,C11', label='defaults-re-normalised-under-the-given-key-type')],
+                         carries='C02,C10,C11', label='defaults-re-normalised-under-the-given-key-type')],
          raises=[Raise('ZConfig.DataConversionError', when='%s[0] == 2' % RNM, carries='C10',
                        label='default-key-refused-by-the-key-type')],
          hints=["renorm_multi_defaults(alt(self._rawdefaults, 'kmap'), keytype, _i0, alt(self._default, 'kmap'))"],
@@ -457,7 +457,7 @@ contract('info.SchemaType.deriveSectionType',
                          label='inherited-key-names-and-attribute-names-are-taken'),
                   Clause('len(result._children) == len(%s)' % BCH, carries='C11', label='base-children-first-nothing-else'),
                   Clause('forall(lambda i: implies(0 <= i and i < len(%s), derived_child(result._children[i][0], '
-                         'result._children[i][1], %s[i][0], %s[i][1], keytype)))' % (BCH, BCH, BCH), carries='C11',
+                         'result._children[i][1], %s[i][0], %s[i][1], keytype)))' % (BCH, BCH, BCH), carries='C02,C11',
                          label='each-child-inherited-in-order-wildcard-defaults-re-normalised-on-a-copy'),
                   Clause('self._types.items == updated(old(self._types.items), name, result)', carries='C10',
                          label='registered-under-its-name')],
